@@ -116,3 +116,15 @@ Example C20_overlapping_loops :
   m_retry (mx (fst (run init (pre ++ [LoopEnd true; Join 1; Publish; TCPUp; Select; LoopEnd true])))) = 0 /\
   m_reconn (mx (fst (run init (pre ++ [LoopEnd true; Join 1; Publish; TCPUp; Select; LoopEnd true])))) = 2.
 Proof. vm_compute. repeat split. Qed.
+
+(** The gauge is incremented by the loop-start action [LoopBegin], which precedes the wait for the
+    dropped generation's teardown: here the loop has begun while generation 0 is torn down but NOT
+    yet joined — [Publish] is not enabled (it is a no-op), and the gauge reads 1 all along. *)
+Example C20_gauge_positive_during_slow_teardown :
+  let acts := [Open; TCPUp; Select; Drop; LoopSpawn; LoopBegin; Teardown] in
+  let s := fst (run init acts) in
+  m_retry (mx s) = 1 /\ g_joined (gens s 0) = false /\ lrun s = 1%nat /\
+  fst (exec s Publish) = s /\
+  m_retry (mx (fst (run s [Join 0; Publish; TCPUp; Select]))) = 1 /\
+  m_retry (mx (fst (run s [Join 0; Publish; TCPUp; Select; LoopEnd true]))) = 0.
+Proof. vm_compute. repeat split. Qed.
